@@ -1676,8 +1676,31 @@ func (v VendorNamespace) decodeVendorNamespace(data []byte, offset uint16, prese
 	return v, offset, nil
 }
 
+// radioTapNamespaceMaxLength is an upper bound of the serialized size of one RadioTapNamespace,
+// alignment padding included.
+const radioTapNamespaceMaxLength = 112
+
+// errRadioTapTooLong is returned when the header does not fit the 16 bit length field.
+var errRadioTapTooLong = errors.New("RadioTap header too long")
+
+// radioTapReserve grows the zeroed scratch buffer so that n more bytes fit behind offset.
+func radioTapReserve(buf []byte, offset uint16, n int) ([]byte, error) {
+	need := int(offset) + n
+	if need > 0xffff {
+		return nil, errRadioTapTooLong
+	}
+	if need > len(buf) {
+		buf = append(buf, make([]byte, need-len(buf))...)
+	}
+	return buf, nil
+}
+
 func (m RadioTap) SerializeTo(b gopacket.SerializeBuffer, opts gopacket.SerializeOptions) error {
-	buf := make([]byte, 1024)
+	offset := uint16(4)
+	buf, err := radioTapReserve(make([]byte, 1024), offset, 4*len(m.Present))
+	if err != nil {
+		return err
+	}
 
 	buf[0] = m.Version
 	buf[1] = 0
@@ -1685,7 +1708,6 @@ func (m RadioTap) SerializeTo(b gopacket.SerializeBuffer, opts gopacket.Serializ
 	// save length encoding for the end when it's easier to know how long everything is
 
 	// encode full present bitmap
-	offset := uint16(4)
 	for _, present := range m.Present {
 		binary.LittleEndian.PutUint32(buf[offset:offset+4], uint32(present))
 		offset += 4
@@ -1699,9 +1721,21 @@ func (m RadioTap) SerializeTo(b gopacket.SerializeBuffer, opts gopacket.Serializ
 	vendorNamespaceIndex := 0
 	for _, present := range m.Present {
 		if radioTapNamespace {
+			if radioTapNamespaceIndex >= len(m.RadioTapValues) {
+				return errors.New("RadioTap present bitmap without RadioTapValues entry")
+			}
+			if buf, err = radioTapReserve(buf, offset, radioTapNamespaceMaxLength); err != nil {
+				return err
+			}
 			offset = m.RadioTapValues[radioTapNamespaceIndex].serializeTo(buf, offset, present)
 			radioTapNamespaceIndex += 1
 		} else if vendorNamespace {
+			if vendorNamespaceIndex >= len(m.VendorValues) {
+				return errors.New("RadioTap present bitmap without VendorValues entry")
+			}
+			if buf, err = radioTapReserve(buf, offset, 9+int(m.VendorValues[vendorNamespaceIndex].SkipLength)); err != nil {
+				return err
+			}
 			offset = m.VendorValues[vendorNamespaceIndex].serializeTo(buf, offset, present)
 			vendorNamespaceIndex += 1
 		} else {
@@ -1891,13 +1925,13 @@ func (m RadioTapNamespace) serializeTo(buf []byte, offset uint16, present RadioT
 func (v VendorNamespace) serializeTo(buf []byte, offset uint16, present RadioTapPresent) uint16 {
 	offset += align(offset, 2)
 
-	copy(buf[offset:], v.OUI[0:3])
+	copy(buf[offset:offset+3], v.OUI)
 	offset += 4
 	buf[offset] = v.SubNamespace
 	offset += 2
 	binary.LittleEndian.PutUint16(buf[offset:], v.SkipLength)
 	offset += 2
-	copy(buf[offset:], v.Contents)
+	copy(buf[offset:offset+v.SkipLength], v.Contents)
 	offset += v.SkipLength
 
 	return offset
